@@ -30,7 +30,7 @@ REQUIRED_MONITORS = ["weights_nonnegative", "weights_sum_to_one", "flat_unchange
                      "q_calc_strictly_positive", "support_spans_window", "zero_width_exact", "constructs", "invariant_evaluations"]
 REQUIRED_BUCKETS = {"quick": ["geom:pinhole", "geom:slit(L,0)", "geom:slit(0,W)", "geom:slit(L,W)", "geom:2d",
                               "grid:linear", "grid:log", "grid:irregular", "qcalc:default", "qcalc:user", "n:1", "n:2",
-                              "sigma>q", "zero_width", "grid_extension_hits_zero", "perpoint", "directmodel", "directmodel:mixed-zero", "acc:low", "acc:med", "acc:high",
+                              "sigma>q", "zero_width", "grid_extension_hits_zero", "perpoint", "directmodel", "directmodel:mixed-zero", "directmodel:widths-changed-on-same-data-object", "acc:low", "acc:med", "acc:high",
                               "acc:xhigh"]}
 REQUIRED_BUCKETS["thorough"] = REQUIRED_BUCKETS["quick"]
 
@@ -439,6 +439,32 @@ def run_dm(case, rec):
                       {"setup": name, "scale": s, "background": b, "max_rel_err": core.maxrel(got, exp)}, key=key)
         rec.bucket("directmodel")
         rec.set_shape(("dm", name), True)
+        # --- the same data object again after its widths were changed: the new calculator smears with the new
+        # widths, exactly like a calculator on a fresh data object that carries them
+        if name in ("pinhole", "slit-length", "slit-width", "2d"):
+            import copy as _copy
+            factor = float(rng.uniform(2.0, 4.0))
+            if name == "pinhole":
+                data.dx = np.asarray(data.dx, float)*factor
+            elif name == "slit-length":
+                data.dxl = np.asarray(data.dxl, float)*factor
+            elif name == "slit-width":
+                data.dxw = np.asarray(data.dxw, float)*factor
+            else:
+                data.dqx_data = np.asarray(data.dqx_data, float)*factor
+                data.dqy_data = np.asarray(data.dqy_data, float)*factor
+            fresh = _copy.deepcopy(data)
+            for attr in [a_ for a_ in vars(fresh) if a_.startswith("_") and "cache" in a_.lower()]:
+                delattr(fresh, attr)
+            again = np.asarray(direct_model.DirectModel(data, model)(scale=1.0, background=0.0, **pars), float)
+            ref = np.asarray(direct_model.DirectModel(fresh, model)(scale=1.0, background=0.0, **pars), float)
+            same = bool(np.array_equal(again, ref, equal_nan=True))
+            changed = bool(np.any(np.abs(again - base) > 1e-9*np.abs(base)))
+            rec.check("smears_with_current_widths", same and changed,
+                      {"setup": name, "widths_multiplied_by": factor, "equals_fresh_data_object": same,
+                       "differs_from_result_with_old_widths": changed,
+                       "max_rel_diff_to_fresh": core.maxrel(again, ref)})
+            rec.bucket("directmodel:widths-changed-on-same-data-object")
 
 
 def run_case(case, rec):
